@@ -287,8 +287,8 @@ class Parser:
                 self._buffer.appendleft(next(self._lexer))
                 c += 1
             except StopIteration:
-                if len(self._buffer) == 0:
-                    raise UnexpectedEOF(self._lexer._len, self._lexer._source)
+                # Nothing left to look at, however full the window is.
+                raise UnexpectedEOF(self._lexer._len, self._lexer._source)
 
     def peek(self, count: int = 1) -> Token:
         """
